@@ -258,12 +258,13 @@ var allNS = []string{nsClient, nsStanzas, nsPing, nsTime, nsVersion, nsInfo, nsI
 	nsPubsub, nsPubsubOwn, nsBookmarks, nsUpload, nsCommands, nsSID, "jabber:server", "urn:example:unknown", "x", " "}
 
 const (
-	meJID   = "me@example.net/lib"
-	meBare  = "me@example.net"
-	srvJID  = "example.net"
-	peerJID = "juliet@example.net/balcony"
-	roomJID = "room@conf.example.net"
-	roomMe  = "room@conf.example.net/me"
+	meJID    = "me@example.net/lib"
+	otherJID = "other@example.net/x"
+	meBare   = "me@example.net"
+	srvJID   = "example.net"
+	peerJID  = "juliet@example.net/balcony"
+	roomJID  = "room@conf.example.net"
+	roomMe   = "room@conf.example.net/me"
 )
 
 // ---------------------------------------------------------------------------
@@ -591,6 +592,72 @@ func stanzaErr(typ, cond, text string) *node {
 		e.add(el("text", nsStanzas, "xml:lang", "en").text(text))
 	}
 	return e
+}
+
+// richErr builds a stanza error payload with the shapes peers really send and
+// the ones they should not: zero to three conditions, up to four <text/>
+// children that are empty, whitespace-only or filled, with and without
+// xml:lang and with repeated languages, application conditions named like
+// standard ones, in canonical or shuffled order.  The tags describe the shape.
+func richErr(r *rand.Rand) (*node, []string) {
+	e := el("error", "", "type", []string{"cancel", "modify", "auth", "wait", "continue", "", "bogus"}[r.Intn(7)])
+	if r.Intn(3) == 0 {
+		e.set("by", []string{srvJID, "", "@"}[r.Intn(3)])
+	}
+	conds := []string{"item-not-found", "service-unavailable", "feature-not-implemented", "forbidden", "bad-request", "internal-server-error", "gone", "redirect", "undefined-condition"}
+	var kids []*node
+	nc := []int{1, 1, 1, 2, 0, 3}[r.Intn(6)]
+	for i := 0; i < nc; i++ {
+		c := el(conds[r.Intn(len(conds))], nsStanzas)
+		if c.Name == "gone" || c.Name == "redirect" {
+			c.text("xmpp:other@example.org")
+		}
+		kids = append(kids, c)
+	}
+	var tags []string
+	nt := r.Intn(5)
+	firstEmpty, laterFull := false, false
+	for i := 0; i < nt; i++ {
+		t := el("text", nsStanzas)
+		if l := []string{"", "en", "de", "en", "x-klingon"}[r.Intn(5)]; l != "" {
+			t.set("xml:lang", l)
+		}
+		switch r.Intn(4) {
+		case 0:
+			if i == 0 {
+				firstEmpty = true
+			}
+		case 1:
+			t.text(" \n\t ")
+			if i > 0 {
+				laterFull = true
+			}
+		default:
+			t.text("no such thing")
+			if i > 0 {
+				laterFull = true
+			}
+		}
+		kids = append(kids, t)
+	}
+	if nt > 1 {
+		tags = append(tags, "err-texts")
+	}
+	if firstEmpty && laterFull {
+		tags = append(tags, "err-first-text-empty")
+	}
+	if r.Intn(3) == 0 {
+		kids = append(kids, el([]string{"too-many-parameters", "item-not-found", "text", "error"}[r.Intn(4)], "urn:example:app"))
+	}
+	if r.Intn(2) == 0 {
+		r.Shuffle(len(kids), func(i, j int) { kids[i], kids[j] = kids[j], kids[i] })
+		tags = append(tags, "err-shuffled")
+	}
+	if nc != 1 {
+		tags = append(tags, "err-conditions-not-one")
+	}
+	e.add(kids...)
+	return e, tags
 }
 
 func xform(typ, formType string, fields ...string) *node {
